@@ -297,7 +297,13 @@ PENDING_REASON = "not claimed yet: static checker under construction (see DESIGN
 
 # ---- clauses added after the seed waves (appended to the texts above; see DESIGN.md 9.3 / 9.4)
 _ADDED = {
-    "C01": "Added: the warm/cold-start routine (found by role) writes qacc and efc_force on every path (R-ITERATE-INIT).",
+    "C44": "Added: R-STATIC-HASH also demands that the digest wrapper is built on every flatten (no per-instance memo).",
+    "C31": "Added: Also IO-NOREWRITE: in the canonical loader only bufread stores into the by-value blocks it has read.",
+    "C30": "Added: Also R-WAKE-NAN: the predicate mj_wake applies to a sleeping tree treats a NaN velocity as a change (finite evaluation).",
+    "C27": "Added: R-INDEXDIM also covers the transmission stage (engine_core_smooth.c) and the length-range computation (engine_setconst.c): row provenance incl. nactuator-dimensioned arrays, parameters range-checked against nactuator as actuator ids, and the column stride of multi-column arrays.",
+    "C04": "Added: R-MODSET also counts a non-const local pointer into a state array that is stored through or handed to a non-const parameter.",
+    "C01": "Added: the warm/cold-start routine (found by role) writes qacc and efc_force on every path (R-ITERATE-INIT)."
+           " Also R-CONTACT-INIT: every member of mjContact is written in the translation unit that creates contacts (uninitialised storage).",
     "C09": "Added: R-FRESH on the inverse pipeline (no stage reads a derived field whose producer is more conditional) and "
            "R-ISLAND-COPY (a function that refreshes an island-ordered copy nothing inside it consumes refreshes it on every path "
            "after each write to either side, nisland == 0 excepted).",
